@@ -57,6 +57,7 @@ type Frame struct {
 	rangeOf   []*ssa.Range
 	localVars map[string]Val
 	allocNames map[string]bool // names of locals that live in an allocation
+	pendingLit string          // local just declared with a nil constant (see DebugRef)
 	localsOut map[*ssa.BasicBlock]map[string]Val
 	edges       map[*ssa.BasicBlock][]inEdge
 	pendingBack map[*ssa.BasicBlock][]inEdge
